@@ -278,7 +278,9 @@ def c07(cases, f64=False):
             r = range_of(c.desc)
             if r is not None:
                 lo, hi = r
-                if (lo is not None and g < lo - ulps_tol(lo, f64)) or (hi is not None and g > hi + ulps_tol(hi, f64)):
+                # at the exact scalar sqrt / ln / log2 are surrogates floored to a 2^-32 grid: allow 1e-6 there
+                sur = F(1, 10 ** 6) if (not f64 and name in ("Cti", "Entropy", "Eft", "Welford", "WRolling", "Pfe")) else F(0)
+                if (lo is not None and g < lo - ulps_tol(lo, f64) - sur) or (hi is not None and g > hi + ulps_tol(hi, f64) + sur):
                     bad("value %s (~%.12g) outside [%s, %s]" % (g if not f64 else float(g), float(g), lo, hi), t)
                     break
             if name == "Drawdown":
